@@ -42,11 +42,13 @@ TRUSTED = ["translator harness/translate/g4_c07_constants.py (Python ast -> cons
            "numpy/torch eigvalsh only for the float screening; the verdict on sampled matrices is the exact certificate",
            "modelled not verified: torch / linear_operator primitives (Cholesky, solves, DiagLinearOperator.diagonal)"]
 ASSUMPTIONS = ["float64 only (torch default dtype set to float64 by the harness, so GreaterThan(1e-4).lower_bound is the float64 1e-4)",
-               "positive definiteness of the RBF/Matern/RQ/periodic/spectral-mixture/cosine/cylindrical/piecewise-polynomial/"
-               "Hamming-IMQ covariance FUNCTIONS is not proved (gram_psd_partial): observed numerically and certified "
-               "exactly per sampled float64 matrix only",
+               "positive definiteness of the Matern / RQ / piecewise-polynomial / Hamming-IMQ covariance FUNCTIONS, of the "
+               "cylindrical radial factor and of the derivative kernels (RBFKernelGrad, RBFKernelGradGrad, Matern52KernelGrad, "
+               "PolynomialKernelGrad) is not proved (gram_psd_partial): observed numerically and certified exactly per sampled "
+               "float64 matrix only; RBF, cosine(d=1), periodic, spectral mixture, linear, polynomial, constant, index, "
+               "multitask/LCM, scale, sums and products ARE theorems for all sizes",
                "kernels not examined: ArcKernel, GaussianSymmetrizedKLKernel/DistributionalInputKernel (not PD in general), "
-               "MultiDeviceKernel, keops kernels, GridKernel (needs grid inputs)",
+               "MultiDeviceKernel, keops kernels, GridKernel / GridInterpolationKernel, InducingPointKernel (Gram part)",
                "FixedGaussianNoise: a call-time `noise=` tensor is used as given (no constraint object exists for it)",
                "exact-GP models use the default (Cholesky) prediction path; fast_pred_var/LOVE is not examined here"]
 
@@ -125,9 +127,10 @@ class Driver:
         self.lines.append(line)
         self.cbs.append(cb)
 
-    def flush(self, workers=4):
+    def flush(self, workers=None):
         if not self.lines:
             return
+        workers = workers or (4 if self.ctx.tier == "quick" else 8)
         lines, cbs = self.lines, self.cbs
         self.lines, self.cbs = [], []
         k = max(1, min(workers, len(lines) // 8 or 1))
@@ -451,9 +454,9 @@ def gram_cases(ctx, drv, tier):
     torch = _torch()
     rng = ctx.rng("gram")
     sizes = [(3, 1), (5, 2), (8, 3), (10, 1)] if tier == "quick" else [(3, 1), (4, 2), (5, 2), (6, 3), (8, 3), (10, 1), (10, 2), (12, 3)]
-    reps = 1 if tier == "quick" else 3
+    reps = 1 if tier == "quick" else 6
     grid = kernel_grid(tier, rng)
-    cert_budget = 300 if tier == "quick" else 10 ** 9
+    cert_budget = 650 if tier == "quick" else 10 ** 9
     fam_count, geom_count, cert_sent = {}, {}, 0
     worst = {}
     pending = []
@@ -490,7 +493,7 @@ def gram_cases(ctx, drv, tier):
                     rec = {"fam": fam, "hp": hp, "geometry": gname, "n": n, "d": d, "cls": cls, "X": Xk, "K": K,
                            "symptoms": symptoms, "info": info, "desc": desc}
                     borderline = info.get("rel_min_eig", 0) < -EIG_TOL / 100
-                    want = bool(symptoms) or borderline or (cert_sent < cert_budget and rng.random() < (0.12 if tier == "quick" else 1.0))
+                    want = bool(symptoms) or borderline or (cert_sent < cert_budget and rng.random() < (0.25 if tier == "quick" else 0.5))
                     if want and math.isfinite(info.get("norm", float("nan"))):
                         cert_sent += 1
                         pending.append(rec)
@@ -869,9 +872,14 @@ def run_exact_gp(ctx, drv, p, want_driver=True):
                     q = dict(p)
                     q["witness_v"] = [C.rat_str(x) for x in dd[2]]
                     q["matrix"] = name
-                    ctx.fail(f"exactgp-{name}-indefinite:{p['kernel']}",
-                             f"exact GP {tag}: {name} covariance has exact negative curvature "
-                             f"v^T M v = {float(quad(rows, dd[2])):.3e} beyond -1e-9*||prior||", q)
+                    qv = float(quad(rows, dd[2]))
+                    vv = float(sum(x * x for x in dd[2]))
+                    mag = max(EIG_TOL, -qv / (vv * scale)) if vv > 0 else EIG_TOL
+                    report_model_fails(ctx, [(f"exactgp-{name}-indefinite:{p['kernel']}",
+                                              f"exact GP {tag}: {name} covariance has exact negative curvature "
+                                              f"v^T M v = {qv:.3e} (|v|^2 = {vv:.3e}) beyond -1e-9*||prior||",
+                                              "indefinite", mag, f"ExactGP({p['kernel']})/{name}")], q,
+                                       lambda p=p: bool(run_exact_gp(None, None, p, want_driver=False)))
             drv.ask(f"psd {C.rat_str(dl)} {rows_tokens(rows)}", cb3)
     return fails
 
@@ -879,7 +887,7 @@ def run_exact_gp(ctx, drv, p, want_driver=True):
 def exact_gp_cases(ctx, drv, tier):
     rng = ctx.rng("exactgp")
     kinds = ["scale_rbf", "scale_matern1.5", "scale_matern0.5", "scale_rq", "rbf_plus_linear", "poly2"]
-    reps = 4 if tier == "quick" else 40
+    reps = 4 if tier == "quick" else 80
     for kind in kinds:
         for _ in range(reps):
             p = exact_gp_payload(rng, kind)
@@ -1014,16 +1022,21 @@ def run_variational(ctx, drv, p, want_driver=True):
             if dd[0] == "neg":
                 q2 = dict(p)
                 q2["witness_v"] = [C.rat_str(x) for x in dd[2]]
-                ctx.fail(f"variational-q(f)-indefinite:{p['strategy']}/{p['vdist']}",
-                         f"variational {tag}: q(f) covariance has exact negative curvature "
-                         f"{float(quad(rows, dd[2])):.3e} beyond -1e-9*scale", q2)
+                qv = float(quad(rows, dd[2]))
+                vv = float(sum(x * x for x in dd[2]))
+                mag = max(EIG_TOL, -qv / (vv * sscale)) if vv > 0 else EIG_TOL
+                report_model_fails(ctx, [(f"variational-q(f)-indefinite:{p['strategy']}/{p['vdist']}",
+                                          f"variational {tag}: q(f) covariance has exact negative curvature "
+                                          f"{qv:.3e} (|v|^2 = {vv:.3e}) beyond -1e-9*scale", "indefinite", mag,
+                                          f"Variational({p['strategy']},{p['vdist']},{p['kernel']})/q(f)")], q2,
+                                   lambda p=p: bool(run_variational(None, None, p, want_driver=False)))
         drv.ask(f"psd {C.rat_str(dl)} {rows_tokens(rows)}", cb3)
     return fails
 
 
 def variational_cases(ctx, drv, tier):
     rng = ctx.rng("variational")
-    reps = 4 if tier == "quick" else 40
+    reps = 4 if tier == "quick" else 80
     for strategy in ("whitened", "unwhitened"):
         for vdist in ("cholesky", "meanfield", "delta"):
             for _ in range(reps):
@@ -1192,7 +1205,7 @@ def noise_objects():
     return out
 
 
-def run_noise(ctx, drv, want_driver=True, raws=None):
+def run_noise(ctx, drv, want_driver=True, raws=None, require_positive=False):
     import torch
     gen = _state.get("gen")
     raws = list(RAWS if raws is None else raws)
@@ -1220,12 +1233,18 @@ def run_noise(ctx, drv, want_driver=True, raws=None):
             if not bool((v >= lbv).all()) or torch.isnan(v).any():
                 ctx.fail(f"noise-below-bound:{name}", f"{name}: raw={r!r} gives noise {v.tolist()} < lower bound {lbv!r}",
                          {"kind": "noise", "object": name, "raw": r})
+            if require_positive and gname is not None and not bool((v > 0).all()):
+                ctx.fail(f"noise-not-positive:{name}", f"{name} (default constraint, lower bound {lbv!r}): raw={r!r} gives noise "
+                         f"{v.tolist()}: the added noise variance is not > 0 (default_noise_lower_pos no longer holds)",
+                         {"kind": "noise", "object": name, "raw": r, "require_positive": True})
         if want_driver and drv is not None and type(constraint).__name__ == "GreaterThan":
             def cb(rep, name=name, got=got, lbv=lbv):
                 vals = [unbits(t) for t in rep.split()]
                 for r, a, b in zip(raws, got, vals):
                     ctx.count("noise_compared")
-                    if not (abs(a - b) <= 1e-10 * max(abs(a), abs(b)) or a == b):
+                    # 3e-16 absolute: the Lean Float model evaluates log(1 + exp x), torch log1p(exp x); they differ by
+                    # at most one rounding of `1 + exp x`
+                    if not (abs(a - b) <= 1e-10 * max(abs(a), abs(b)) + 3e-16 or a == b):
                         ctx.fail(f"noise-vs-model:{name}", f"{name}: raw={r!r}: likelihood noise {a!r} but softplus(raw)+lower "
                                  f"(regenerated GreaterThan.transform, lower={lbv!r}) = {b!r}",
                                  {"kind": "noise", "object": name, "raw": r})
@@ -1314,17 +1333,21 @@ def correspondence(ctx, want_driver=True):
         ctx.notes["translator_output"] = "unavailable (baseline Gen used by the driver)"
     T = C.Timer()
     tm = {}
-    constants_tie(ctx, drv)
-    variance_cases(ctx, drv, ctx.tier)
-    run_noise(ctx, drv)
-    run_fixed_noise(ctx, drv)
-    tm["floors_py"] = round(T(), 1)
-    exact_gp_cases(ctx, drv, ctx.tier)
-    tm["exactgp_py"] = round(T(), 1)
-    variational_cases(ctx, drv, ctx.tier)
-    tm["variational_py"] = round(T(), 1)
-    gram_cases(ctx, drv, ctx.tier)
-    tm["gram"] = round(T(), 1)
+    import traceback
+
+    def section(name, fn):
+        try:
+            fn()
+        except Exception as e:
+            ctx.broke("correspondence", f"section {name}: {type(e).__name__}", traceback.format_exc()[-1200:])
+        tm[name] = round(T(), 1)
+    section("constants", lambda: constants_tie(ctx, drv))
+    section("variance", lambda: variance_cases(ctx, drv, ctx.tier))
+    section("noise", lambda: run_noise(ctx, drv))
+    section("fixed_noise", lambda: run_fixed_noise(ctx, drv))
+    section("exactgp_py", lambda: exact_gp_cases(ctx, drv, ctx.tier))
+    section("variational_py", lambda: variational_cases(ctx, drv, ctx.tier))
+    section("gram", lambda: gram_cases(ctx, drv, ctx.tier))
     drv.flush()
     drv.flush()
     tm["all"] = round(T(), 1)
@@ -1332,6 +1355,13 @@ def correspondence(ctx, want_driver=True):
     ctx.notes["schur_max_diff_over_tol"] = _state.get("schur_max_diff_over_tol")
     if "hetero_error" in _state:
         ctx.notes["hetero_error"] = _state["hetero_error"]
+    # run.py starts `search` only when no failure at all was recorded; known-finding hits are failures too, so the
+    # spec-only search is started from here whenever the translator / a proof / the driver broke
+    if any(k in ("translator", "proof", "audit") or (k == "correspondence" and n.startswith(("driver", "section"))) for k, n, _ in ctx.broken):
+        try:
+            search(ctx, ctx.broken)
+        except Exception:
+            ctx.notes["search_error"] = traceback.format_exc()[-1200:]
 
 
 def search(ctx, broken):
@@ -1339,10 +1369,22 @@ def search(ctx, broken):
     against the property itself (variance >= min_variance, noise >= bound, PSD, monotone), so a failing input is
     whatever they report; they have already run.  What remains is the case where the driver was unavailable for
     the model comparisons: re-run the clamp / noise sections spec-only with extra raw values and diagonals."""
-    if ctx.failures:
+    if _state.get("searched"):
         return
+    _state["searched"] = True
     _torch()
     rng = ctx.rng("search")
+    n_before = len(ctx.failures)
+    import gpytorch
+    for nm, mk in (("GaussianLikelihood()", lambda: gpytorch.likelihoods.GaussianLikelihood()),
+                   ("MultitaskGaussianLikelihood(num_tasks=2)", lambda: gpytorch.likelihoods.MultitaskGaussianLikelihood(num_tasks=2))):
+        try:
+            mk()
+        except Exception as e:
+            ctx.fail(f"likelihood-construction:{nm}", f"{nm} cannot be constructed with its default noise constraint: "
+                     f"{type(e).__name__}: {e}", {"kind": "construct", "object": nm})
+    if len(ctx.failures) > n_before:
+        return
 
     class NoDrv:
         def ask(self, *a):
@@ -1350,7 +1392,7 @@ def search(ctx, broken):
 
         def flush(self):
             pass
-    run_noise(ctx, None, want_driver=False, raws=RAWS + [rng.uniform(-800, 50) for _ in range(200)])
+    run_noise(ctx, None, want_driver=False, raws=RAWS + [rng.uniform(-800, 50) for _ in range(200)], require_positive=True)
     run_fixed_noise(ctx, None, want_driver=False)
     for _ in range(300):
         n = rng.choice([1, 2, 4])
@@ -1363,7 +1405,7 @@ def search(ctx, broken):
             ctx.case(f"search variance {diag} {container}")
             for key, what in fails:
                 ctx.fail(key, what, p)
-        if ctx.failures:
+        if len(ctx.failures) > n_before:
             return
 
 
@@ -1383,8 +1425,15 @@ def replay(ctx, payload):
         fails, _ = run_variance(ctx, None, diag, case.get("min_variance_double"), case["container"], want_driver=False)
         return not fails
     if kind in ("noise", "noise-covar"):
-        run_noise(ctx, None, want_driver=False, raws=[case.get("raw", -800.0)])
+        run_noise(ctx, None, want_driver=False, raws=[case.get("raw", -800.0)], require_positive=bool(case.get("require_positive")))
         return not ctx.failures
+    if kind == "construct":
+        import gpytorch
+        try:
+            eval("gpytorch.likelihoods." + case["object"])
+            return True
+        except Exception:
+            return False
     if kind == "fixed_noise":
         run_fixed_noise(ctx, None, want_driver=False)
         return not ctx.failures
